@@ -274,7 +274,7 @@ class Gen:
                 i += 1
                 directives.append(("loop", nth, blk, i))
             elif s.startswith("//@proof "):
-                m = re.match(r"//@proof\s+(after|before|start|end)(?:\s+`(.*)`)?\s*$", s)
+                m = re.match(r"//@proof\s+(after|before|start|end)(?:#(\d+))?(?:\s+`(.*)`)?\s*$", s)
                 if not m:
                     raise TemplateError("%s:%d: bad proof directive" % (tname, i + 1))
                 blk = []
@@ -283,8 +283,8 @@ class Gen:
                     blk.append(lines[i])
                     i += 1
                 i += 1
-                anchor = m.group(2).replace("\\n", "\n").replace("\\t", "\t") if m.group(2) else None
-                directives.append(("proof", m.group(1), anchor, blk, i))
+                anchor = m.group(3).replace("\\n", "\n").replace("\\t", "\t") if m.group(3) else None
+                directives.append(("proof", m.group(1), anchor, blk, i, int(m.group(2)) if m.group(2) else None))
             elif s == "" or s.startswith("// "):
                 i += 1
             else:
@@ -483,7 +483,7 @@ class Gen:
         return body
 
     def _splice_proof(self, body, dct, rel, qual):
-        _, where, anchor, blk, tl = dct
+        _, where, anchor, blk, tl, nth = dct
         text = "\n".join(blk)
         for b in blk:
             pass
@@ -498,9 +498,13 @@ class Gen:
             # the body ends with a one-line tail expression (e.g. `Ok(())`): the proof goes before it
             return b[:last_nl + 1] + text + "\n" + b[last_nl + 1:] + "\n"
         cnt = body.count(anchor)
-        if cnt != 1:
+        if nth is None and cnt != 1:
             raise AnchorLost("%s: %s: proof anchor `%s` matched %d times (template line %d)" % (rel, qual, anchor, cnt, tl))
-        idx = body.index(anchor)
+        if nth is not None and cnt < nth:
+            raise AnchorLost("%s: %s: proof anchor `%s` matched %d times, occurrence #%d wanted (template line %d)" % (rel, qual, anchor, cnt, nth, tl))
+        idx = -1
+        for _ in range(nth or 1):
+            idx = body.index(anchor, idx + 1)
         if where == "before":
             ls = body.rfind("\n", 0, idx) + 1
             return body[:ls] + text + "\n" + body[ls:]
